@@ -161,6 +161,51 @@ func build(t *tape.Tape, doc *document.MultiPage, version pdf.Version, info *Inf
 		info.Desc += "handmade-page "
 		info.Pages++
 	}
+	if version >= pdf.V1_2 && t.Bool("rich.diamond", 1, 4) {
+		// Hostile but syntactically fine: trees whose intermediate nodes are
+		// shared (each node lists the next one twice).  There are depth+1
+		// nodes and 2^depth paths; a walker has to remember what it has seen.
+		w := doc.Out
+		depth := tape.Pick(t, "rich.diamond.depth", 2, 6, 20, 48)
+		if t.Bool("rich.diamond.names", 2, 3) {
+			nodes := make([]pdf.Reference, depth+1)
+			for i := range nodes {
+				nodes[i] = w.Alloc()
+			}
+			for i := 0; i < depth; i++ {
+				d := pdf.Dict{"Kids": pdf.Array{nodes[i+1], nodes[i+1]}}
+				if i > 0 {
+					d["Limits"] = pdf.Array{pdf.String("a"), pdf.String("b")}
+				}
+				w.Put(nodes[i], d)
+			}
+			w.Put(nodes[depth], pdf.Dict{"Names": pdf.Array{pdf.String("a"), pdf.Integer(1), pdf.String("b"), pdf.Integer(2)}, "Limits": pdf.Array{pdf.String("a"), pdf.String("b")}})
+			w.GetMeta().Catalog.Names = pdf.Dict{"Dests": nodes[0]}
+			info.Desc += fmt.Sprintf("diamond-nametree(%d) ", depth)
+		}
+		if t.Bool("rich.diamond.outline", 1, 2) {
+			// every item is both the first child and the next sibling of its
+			// predecessor
+			items := make([]pdf.Reference, depth+1)
+			for i := range items {
+				items[i] = w.Alloc()
+			}
+			root := w.Alloc()
+			w.Put(root, pdf.Dict{"Type": pdf.Name("Outlines"), "First": items[0], "Last": items[0], "Count": pdf.Integer(depth)})
+			for i := range items {
+				d := pdf.Dict{"Title": pdf.String(fmt.Sprintf("item %d", i)), "Parent": root}
+				if i < depth {
+					d["First"] = items[i+1]
+					d["Last"] = items[i+1]
+					d["Next"] = items[i+1]
+					d["Count"] = pdf.Integer(1)
+				}
+				w.Put(items[i], d)
+			}
+			w.GetMeta().Catalog.Outlines = root
+			info.Desc += fmt.Sprintf("diamond-outline(%d) ", depth)
+		}
+	}
 	doc.Out.GetMeta().Info.Title = "rich document"
 	return doc.Close()
 }
